@@ -395,7 +395,10 @@ def field_stream(ctx):
                "geometric": lambda: {"type": "geometric", "ratio": x(2)},
                "closed_form": lambda: {"type": "closed_form", "sum": "Tn * (" + x(2) + ")", "prod": "(" + x(2) + ") ** Tn", "num_terms_symbol": "Tn"},
                "custom": lambda: {"type": "custom", "term_expression": "it + (" + x(2) + ")", "iterator_symbol": "it"}}[kind]()
-        core = {"name": "core", "input_params": ["n"], "resources": [{"name": "T", "type": "additive", "value": x()}, {"name": "P", "type": "multiplicative", "value": x(2)}]}
+        # (a multiplicative resource only under a constant sequence: the product formulas of the other kinds are outside what the
+        #  properties state, and their gamma-function constants are folded to floats that no exact comparison can follow)
+        core = {"name": "core", "input_params": ["n"], "resources": [{"name": "T", "type": "additive", "value": x()},
+                                                                      {"name": "P", "type": "multiplicative" if kind == "constant" else "additive", "value": x(2)}]}
         core["resources"][0]["value"] = core["resources"][0]["value"].replace("N", "n")
         core["resources"][1]["value"] = core["resources"][1]["value"].replace("N", "n")
         rep = {"name": "a", "input_params": ["n", "M", "k", "L"], "children": [dict(core, input_params=["n", "M", "k", "L"])],
